@@ -134,6 +134,7 @@ func verifConcrete(x int64, max int64) int64                       { return x }
 func verifIsSymbolic() bool                                        { return false }
 func verifTrace(msg string, args ...interface{})                   {}
 func verifYield()                                                  {}
+func verifQuiesce()                                                {}
 func verifUFBool(name string, args ...interface{}) bool            { return false }
 func verifUFInt(name string, lo, hi int64, args ...interface{}) int64 { return lo }
 func verifSetField(ptr interface{}, field string, v interface{})   {}
